@@ -18,6 +18,12 @@ def fmt_range(fmt):
     return 0, (1 << n) - 1
 
 
+# scaled values n whose decimal n / 100000, multiplied back as a float, falls just below n (0.29, 0.57, 1.15, ...):
+# a conversion that truncates instead of rounding is wrong exactly on these
+TRICKY_FIXED = [n for n in [29000, 57000, 115000, 230000, 402000, -113000, 58000, 1001, 33001, 10000001] + list(range(1, 200000, 7))
+                if int(n / 100000 * 100000) != n][:48]
+
+
 def rand_value(rng, fmt):
     """an integer in the range of an integer format: small ones, boundaries and random ones"""
     lo, hi = fmt_range(fmt)
@@ -62,7 +68,8 @@ def rand_decl(rng, arrays=True, percpu=True, hashvars=True, dicts=True, hash_fmt
         for i in range(rng.randint(1, 5)):
             f = rng.choice(hash_fmts)
             if f == "x":
-                default = rng.choice([0, 0, 3, rng.randint(-1000, 1000), rng.randint(-10 ** 7, 10 ** 7) / 100000])
+                default = rng.choice([0, 3, rng.randint(-1000, 1000), rng.randint(-10 ** 7, 10 ** 7) / 100000,
+                                      rng.choice(TRICKY_FIXED) / 100000, rng.choice(TRICKY_FIXED) / 100000])
             else:
                 default = rng.choice([0, rand_value(rng, f)])
             vs.append(dict(name=f"h{i}", fmt=f, default=default))
